@@ -244,8 +244,9 @@ structure StartFacts (T : Tables) (P : Table) (F : Fragment) (C : Cert) (u : Nat
     chainOK T ru (ent.cl ||| C.opsMask) i C.chain = some v
   paren : ∃ u' e' ru' v' rv' w rw,
     ParenFacts T C ru (ent.cl ||| C.opsMask) u' e' ru' v' rv' w rw
-  pre : ∀ o, o ∈ F.pres → ∃ s e', ru.action o = .shift s ∧ C.starts.get? s = some e' ∧
-    e'.kind = .pre o ∧ ent.cl &&& e'.cl = ent.cl
+  pre : ∀ o, o ∈ F.pres → preAllowed C ent.kind o = true →
+    ∃ s e', ru.action o = .shift s ∧ C.starts.get? s = some e' ∧
+      e'.kind = .pre o ∧ ent.cl &&& e'.cl = ent.cl
   ops : ∀ o, IsOp P F o → opOK T P C ent rv o = true
   closers : ∀ p, prodOf C ent.kind = some p → actsReduce rv ent.cl p = true
 
@@ -273,8 +274,10 @@ theorem startFacts {T : Tables} {P : Table} {F : Fragment} {C : Cert} {u : Nat} 
           · rename_i i hi
             exact ⟨i, shiftTarget_some hi, by simpa using h5⟩
           · cases h5
-        · intro o ho
+        · intro o ho hal
           have := h7 o ho
+          rw [hal] at this
+          simp only [Bool.not_true, Bool.false_or] at this
           split at this
           · rename_i s hs
             obtain ⟨e', a, b, c⟩ := entryWith_spec this
